@@ -883,7 +883,7 @@ func (e *Engine) loopEnter(s *State, fn *ssa.Function, l *loop) {
 	for k, inv := range invs {
 		cx := e.specCtx(s, fn)
 		cx.LoopSnap = s.Heap // at entry the current heap is the loop-entry heap
-		t := e.evalBool(s, cx, inv.Expr)
+		t, _ := e.tryEvalBool(s, cx, inv.Expr)
 		e.assert(s, e.loopName(s, l, "inv-init", k), "inv-init", pos, inv.Text, t)
 	}
 	// snapshot for loopentry()
@@ -956,7 +956,7 @@ func (e *Engine) loopEnter(s *State, fn *ssa.Function, l *loop) {
 	for _, inv := range invs {
 		cx := e.specCtx(s, fn)
 		cx.LoopSnap = s.LoopHeap[l.header]
-		t := e.evalBool(s, cx, inv.Expr)
+		t, _ := e.tryEvalBool(s, cx, inv.Expr)
 		s.assume(t)
 	}
 	if dec != nil {
@@ -988,7 +988,7 @@ func (e *Engine) loopBack(s *State, fn *ssa.Function, l *loop) {
 	for k, inv := range e.loopInvs(c, l.ordinal) {
 		cx := e.specCtx(s, fn)
 		cx.LoopSnap = s.LoopHeap[l.header]
-		t := e.evalBool(s, cx, inv.Expr)
+		t, _ := e.tryEvalBool(s, cx, inv.Expr)
 		e.assert(s, e.loopName(s, l, "inv-keep", k), "inv-keep", pos, inv.Text, t)
 	}
 	if d, ok := c.LoopDec[l.ordinal]; ok {
